@@ -60,15 +60,15 @@ def prepare():
 
 
 # ----------------------------------------------------------------------------- native side
-def native_run(fn, hexin, prof='debug', timeout=20):
+def native_run(fn, hexin, prof='debug', timeout=20, env_extra=None):
     """-> (kind, info): ('ok', ret, heap) | ('fail', code) | ('assume',) | ('abort', rc) | ('hang',)"""
     if len(hexin) > 100000:
         os.makedirs(os.path.join(BUILD, 'tmp'), exist_ok=True)
         path = os.path.join(BUILD, 'tmp', 'big_%d.hex' % os.getpid())
         open(path, 'w').write(hexin)
-        rc, out, t = run([replay_bin(prof), fn, '@' + path], timeout=max(timeout, 120))
+        rc, out, t = run([replay_bin(prof), fn, '@' + path], timeout=max(timeout, 120), env=dict(ENV, **(env_extra or {})))
     else:
-        rc, out, t = run([replay_bin(prof), fn, hexin], timeout=timeout)
+        rc, out, t = run([replay_bin(prof), fn, hexin], timeout=timeout, env=dict(ENV, **(env_extra or {})))
     last = out.strip().splitlines()[-1] if out.strip() else ''
     if rc == 'timeout':
         return ('hang',)
@@ -83,8 +83,8 @@ def native_run(fn, hexin, prof='debug', timeout=20):
     return ('abort', rc, out.strip()[-300:])
 
 
-def native_replay(fn, hexin):
-    return {prof: native_run(fn, hexin, prof) for prof in ('debug', 'release')}
+def native_replay(fn, hexin, env_extra=None):
+    return {prof: native_run(fn, hexin, prof, env_extra=env_extra) for prof in ('debug', 'release')}
 
 
 def reproduced(rep):
@@ -237,7 +237,7 @@ def run_checks(specs, tier, seed):
             if key in seen:
                 continue
             seen.add(key)
-            rep = native_replay(sp['fn'], v['input_hex'])
+            rep = native_replay(sp['fn'], v['input_hex'], env_extra=({'LLSYM_ALLOC_FAIL_ABOVE': str(sp['alloc_fail_above'])} if sp.get('alloc_fail_above') is not None else None))
             r['traces_validated'] += 1
             v = dict(v, native={k: list(x) for k, x in rep.items()})
             if v['kind'] == 'oob':
@@ -248,7 +248,7 @@ def run_checks(specs, tier, seed):
                 continue
             if reproduced(rep):
                 what = {'fail': 'check failed with code %s' % v['info'], 'panic': 'panic: %s' % v['info'], 'budget': 'no termination within the step budget', 'alloc': 'allocation: %s' % v['info']}[v['kind']]
-                r['violations'].append({'message': '%s: %s' % (sp['name'], what), 'input_hex': v['input_hex'], 'fn': sp['fn'], 'native': v['native'], 'kind': v['kind'], 'info': str(v['info'])})
+                r['violations'].append({'message': '%s: %s' % (sp['name'], what), 'input_hex': v['input_hex'], 'fn': sp['fn'], 'native': v['native'], 'kind': v['kind'], 'info': str(v['info']), 'alloc_fail_above': sp.get('alloc_fail_above')})
             else:
                 incon.append('model did not reproduce natively: %s %s input=%s native=%s' % (v['kind'], v['info'], v['input_hex'][:80], rep))
         r['max_call_depth'] = agg.get('max_depth', 0)
